@@ -14,6 +14,7 @@ BIN = os.path.join(target, "debug", "watchexec")
 # mode -> (extra flags, what the log must look like; a straggling event of the first change may count as a second change while running)
 MODES = {
     "do-nothing": ([], r"start,end", "a change while the command runs does nothing"),
+    "(no option given)": ([], r"start,end", "without --on-busy-update, -r or --signal the documented default applies: a change while the command runs does nothing"),
     "queue": ([], r"start,end,start,end", "a change while the command runs causes exactly one further run after the current one ends"),
     "queue (two changes)": ([], r"start,end,start,end,start,end", "each change made while a run is in progress causes exactly one further run: a second change, made during the queued run, is followed by a third run"),
     "restart": ([], r"start(,term,start){1,2},end", "a change while the command runs stops it gracefully (SIGTERM) and starts a fresh run"),
@@ -31,7 +32,7 @@ for mode, (extra, want, doc) in MODES.items():
         os.makedirs(home); os.makedirs(watch)
         script = ("trap 'echo term >> %s; exit 0' TERM; trap 'echo usr1 >> %s' USR1; echo start >> %s; i=0; while [ $i -lt 30 ]; do sleep 0.1; i=$((i+1)); done; echo end >> %s" % (log, log, log, log))
         e2 = dict(os.environ, HOME=home, XDG_CONFIG_HOME=os.path.join(home, ".config"))
-        p = subprocess.Popen([BIN, "--postpone", "--on-busy-update=" + mode.split(" ")[0], "--debounce", "100ms", "-w", watch, "--project-origin", watch, "--shell=none"] + extra + ["--", "sh", "-c", script],
+        p = subprocess.Popen([BIN, "--postpone"] + ([] if mode.startswith("(") else ["--on-busy-update=" + mode.split(" ")[0]]) + ["--debounce", "100ms", "-w", watch, "--project-origin", watch, "--shell=none"] + extra + ["--", "sh", "-c", script],
                              cwd=d, env=e2, stdout=subprocess.DEVNULL, stderr=subprocess.DEVNULL)
         t_end = time.time() + 20
         while time.time() < t_end and "start" not in read(log):
